@@ -30,3 +30,31 @@ func (c *Cache) VerifC17Snapshot() (size, maxSize int64, items []VerifC17Entry, 
 	}
 	return c.size, c.maxSize, items, len(c.accessList), lruBytes
 }
+
+// VerifC17Handle is the result of the first half of Get (the item looked up / created under the cache lock).
+type VerifC17Handle struct{ i *item }
+
+// VerifC17GetItem and VerifC17GetValue are the two halves of Get (`i := c.getItem(key); return c.getValue(i, loader)`).
+// Calling other operations between them reproduces, on one goroutine, the interleavings of concurrent
+// Get/expiry/eviction at lock-release granularity (the cache lock is not held between the halves).
+func (c *Cache) VerifC17GetItem(key string) VerifC17Handle { return VerifC17Handle{c.getItem(key)} }
+
+func (c *Cache) VerifC17GetValue(h VerifC17Handle, loader Loader) ([]byte, error) {
+	return c.getValue(h.i, loader)
+}
+
+// VerifC17Linked reports whether the handle's item is consistently linked: either it is not in the LRU
+// list and says so (index == -1, or never inserted: no timer), or accessList[index] is the item itself.
+// An item with a timer whose index points elsewhere is removed from the wrong position (or out of range)
+// when its timer fires.
+func (c *Cache) VerifC17Linked(h VerifC17Handle) (ok bool, index int, lruLen int, hasTimer bool) {
+	c.m.Lock()
+	defer c.m.Unlock()
+	i := h.i
+	hasTimer = i.timer != nil
+	if !hasTimer || i.index == -1 {
+		return true, i.index, len(c.accessList), hasTimer
+	}
+	ok = i.index >= 0 && i.index < len(c.accessList) && c.accessList[i.index] == i
+	return ok, i.index, len(c.accessList), hasTimer
+}
